@@ -729,10 +729,18 @@ static int visdel_cb(json_object *jso, int flags, json_object *parent, const cha
 	return JSON_C_VISIT_RETURN_CONTINUE;
 }
 /* OITDEL <hobj> <mode> [v]  delete the CURRENT key while iterating with json_object_object_foreach; mode bit i = delete the i-th visited key; -> visit sequence */
+extern int vf_iso_foreach_del(struct json_object *o, unsigned long mask, void (*emit)(const char *key, struct json_object *val, void *arg), void *arg);
+static void iso_emit(const char *k, struct json_object *v, void *arg) { int *first = (int *)arg; if (!*first) ob_putc(&out, ','); *first = 0; ob_hex(&out, k, strlen(k)); ob_printf(&out, ":%ld", uid_of(v)); }
 static void cmd_oitdel(int nt, char **t)
 {
 	int ho = hidx(t[1]); unsigned long mask = (unsigned long)UL(t[2]); int i = 0, first = 1; (void)nt;
 	ob_puts(&out, "= ");
+	if (nt > 3 && t[3][0] == 'i') {   /* the same loop in a translation unit compiled as strict ISO C99 (harness/iso_consumer.c) */
+		vf_iso_foreach_del(H[ho], mask, iso_emit, &first);
+		if (first) ob_putc(&out, '-');
+		emit_dlog();
+		return;
+	}
 	if (nt > 3) {   /* the same through the visitor: the callback deletes the member it is looking at and returns SKIP */
 		struct visdel_ctx c; c.root = H[ho]; c.mask = mask; c.i = 0; c.first = 1;
 		if (json_c_visit(H[ho], 0, visdel_cb, &c) != 0) ob_puts(&out, "!visit-failed");
